@@ -109,6 +109,8 @@ pub enum Kind {
     OverFull,
     DeserError,
     Success,
+    /// a result variant this harness does not know (FeedResult marked non_exhaustive / extended)
+    Other,
 }
 
 impl Kind {
@@ -118,6 +120,7 @@ impl Kind {
             Kind::OverFull => 2,
             Kind::DeserError => 3,
             Kind::Success => 4,
+            Kind::Other => 5,
         }
     }
 }
@@ -163,6 +166,8 @@ fn observe<'a, T>(
             let (l, s) = chk(remaining);
             (Kind::Success, Some(get(data)), l, s)
         }
+        #[allow(unreachable_patterns)]
+        _ => (Kind::Other, None, 0, true),
     }
 }
 
@@ -204,7 +209,10 @@ enum Holder<const N: usize> {
 impl<const N: usize> Holder<N> {
     fn new(boxed: bool) -> Self {
         #[cfg(not(miri))]
-        if !boxed && std::mem::size_of::<CobsAccumulator<N>>() % std::mem::align_of::<CobsAccumulator<N>>() == 0 {
+        if !boxed
+            && std::mem::size_of::<CobsAccumulator<N>>() <= crate::arena::RW
+            && std::mem::size_of::<CobsAccumulator<N>>() % std::mem::align_of::<CobsAccumulator<N>>() == 0
+        {
             let size = std::mem::size_of::<CobsAccumulator<N>>();
             // (a history that ended early has not released its region: restore the pattern first)
             let p = crate::arena::with_arena(|a| {
